@@ -38,38 +38,7 @@ func runC01(c *Ctx) {
 
 	// R2: table/match agreement in syncPublish (and siblings syncPubMeta, subMatch)
 	const r2 = "C01.R2 matching tables and match predicates"
-	type tm struct {
-		fn, topic, recv string
-		call            func(sub, sendTopic string) string
-	}
-	sites := []tm{
-		{brk + "syncPublish", `%msg\.Topic`, `%b`, func(sub, st string) string {
-			return `^call:router\.\(\*broker\)\.syncPubEvent\(%b, %pub, %msg, %pubID, ` + sub + `, %excludePub, ` + st + `, %disclose, %filter, %eventDetails\)$`
-		}},
-		{brk + "syncPubMeta", `%metaTopic`, `%b`, func(sub, st string) string {
-			return `^call:dyn:%sendMeta\(` + sub + `, ` + st + `\)$`
-		}},
-	}
-	for _, s := range sites {
-		exact := s.recv + `\.topicSubscription\[` + s.topic + `\],ok`
-		c.Guard(r2, s.fn, "exact-match delivery", s.call(exact+`#0`, `false`), 1,
-			clause("exact table hit on the published topic", T(`^`+exact+`#1$`)))
-		pk := `range\(` + s.recv + `\.pfxTopicSubscription\)`
-		c.Guard(r2, s.fn, "prefix-match delivery", s.call(pk+`#v`, `true`), 1,
-			clause("published topic has the table key as prefix", T(`^call:wamp\.\(URI\)\.PrefixMatch\(`+s.topic+`, `+pk+`#k\)$`)))
-		wk := `range\(` + s.recv + `\.wcTopicSubscription\)`
-		c.Guard(r2, s.fn, "wildcard-match delivery", s.call(wk+`#v`, `true`), 1,
-			clause("published topic matches the table key as wildcard", T(`^call:wamp\.\(URI\)\.WildcardMatch\(`+s.topic+`, `+wk+`#k\)$`)))
-	}
-	// exactly three delivery sites per function: nothing delivered outside the guarded ones
-	for _, s := range sites {
-		fnp := c.Fn(r2, s.fn)
-		if fnp == nil {
-			continue
-		}
-		n := len(matches(fnp, `^call:(router\.\(\*broker\)\.syncPubEvent|dyn:%sendMeta)\(`))
-		c.R.Check(n == 3, r2, s.fn, "exactly three delivery call sites", c.P.FuncPos(fnp), "number of syncPubEvent/sendMeta call sites differs from the three guarded ones")
-	}
+	ruleMatchPredicates(c, r2)
 	c.R.Floor(r2, 8)
 
 	const r3 = "C01.R3 match policy selects the table consistently"
@@ -229,4 +198,42 @@ func ruleUnsubscribeMember(c *Ctx, r7 string) {
 	}, 1)
 	c.Fields(r7, su, "UNSUBSCRIBED literal", "wamp.Unsubscribed", nil, map[string]string{"Request": `^%msg\.Request$`}, 1)
 	c.Has(r7, su, "removes the sender, not another session", `^call:builtin:delete\(%b\.subscriptions\[%msg\.Subscription\],ok#0\.subscribers, %subscriber\)$`, 1)
+}
+
+// ruleMatchPredicates: events and meta events are delivered through the exact table under the published topic, and
+// through the prefix and wildcard tables under keys that the published topic matches (topic as receiver, key as
+// argument), at exactly three delivery sites per function.
+func ruleMatchPredicates(c *Ctx, r2 string) {
+	type tm struct {
+		fn, topic, recv string
+		call            func(sub, sendTopic string) string
+	}
+	sites := []tm{
+		{brk + "syncPublish", `%msg\.Topic`, `%b`, func(sub, st string) string {
+			return `^call:router\.\(\*broker\)\.syncPubEvent\(%b, %pub, %msg, %pubID, ` + sub + `, %excludePub, ` + st + `, %disclose, %filter, %eventDetails\)$`
+		}},
+		{brk + "syncPubMeta", `%metaTopic`, `%b`, func(sub, st string) string {
+			return `^call:dyn:%sendMeta\(` + sub + `, ` + st + `\)$`
+		}},
+	}
+	for _, s := range sites {
+		exact := s.recv + `\.topicSubscription\[` + s.topic + `\],ok`
+		c.Guard(r2, s.fn, "exact-match delivery", s.call(exact+`#0`, `false`), 1,
+			clause("exact table hit on the published topic", T(`^`+exact+`#1$`)))
+		pk := `range\(` + s.recv + `\.pfxTopicSubscription\)`
+		c.Guard(r2, s.fn, "prefix-match delivery", s.call(pk+`#v`, `true`), 1,
+			clause("published topic has the table key as prefix", T(`^call:wamp\.\(URI\)\.PrefixMatch\(`+s.topic+`, `+pk+`#k\)$`)))
+		wk := `range\(` + s.recv + `\.wcTopicSubscription\)`
+		c.Guard(r2, s.fn, "wildcard-match delivery", s.call(wk+`#v`, `true`), 1,
+			clause("published topic matches the table key as wildcard", T(`^call:wamp\.\(URI\)\.WildcardMatch\(`+s.topic+`, `+wk+`#k\)$`)))
+	}
+	// exactly three delivery sites per function: nothing delivered outside the guarded ones
+	for _, s := range sites {
+		fnp := c.Fn(r2, s.fn)
+		if fnp == nil {
+			continue
+		}
+		n := len(matches(fnp, `^call:(router\.\(\*broker\)\.syncPubEvent|dyn:%sendMeta)\(`))
+		c.R.Check(n == 3, r2, s.fn, "exactly three delivery call sites", c.P.FuncPos(fnp), "number of syncPubEvent/sendMeta call sites differs from the three guarded ones")
+	}
 }
